@@ -320,6 +320,9 @@ def make_r_fmt(disp="vfmt_disp", lit="vfmt_lit", hex2="vfmt_hex2_upper", wmap=No
                         calls.append("%s(%s, &(%s));" % (disp, w, e))  # format_args! borrows its arguments
                     elif s[2] == "02X":
                         calls.append("%s(%s, %s);" % (hex2, w, e))
+                    elif s[2] in ("X", "x", "02x") and hex2 == "vfmt_hex2_upper":
+                        # other hexadecimal forms of a byte (vlib/prelude/vfmt.rs): no padding / lower case
+                        calls.append("%s(%s, %s);" % ({"X": "vfmt_hex_upper", "x": "vfmt_hex_lower", "02x": "vfmt_hex2_lower"}[s[2]], w, e))
                     else:
                         raise Unsupported("format spec {:%s}" % s[2])
             if ai != len(rest):
